@@ -1,6 +1,7 @@
 import CookModel.Lemmas.Text
 import CookModel.Analysis.Collector
 import CookModel.Lemmas.ParserBlocks
+import CookModel.Lemmas.ClosingFold
 /-
   C03  No input makes a public entry point panic, overflow or hang.
 
@@ -290,6 +291,50 @@ theorem C03_statement_iff_analysis_no_panic :
   · intro h env input
     rw [C03_parse_recipe_panic_only_from_analysis, C03_parse_metadata_panic_only_from_analysis]
     exact h env input
+
+/-! ### The analysis pass: no `apanic` site is reachable on parser-like event streams
+
+  `Lemmas/ClosingPanic.lean` (one lemma per function of `Analysis/Collector.lean`: under which facts of
+  the collector state its panic sites are unreachable) and `Lemmas/ClosingFold.lean` (the invariant
+  of the fold and the theorem below). -/
+
+/-- **C03, analysis pass.**  `RecipeCollector::parse_events` reaches none of its panic sites on any
+    event list that
+    * is `WellBracketed`: content events only between `Start k` and the `End k` that closes it, no
+      nested `Start`, in a text block only text events, `>>` metadata (which can switch the define
+      mode) only between blocks — sites "Content outside block", "End event without Start", the two
+      `End` kind assertions, "Non text event in text block outside define mode text";
+    * consists of `EvOK'` events: intermediate data only with the REF modifier and with a
+      non-negative value, timers with a name or a quantity — sites "intermediate data without REF",
+      "resolve_intermediate_ref: negative value";
+    * has component spans on character boundaries of the input (`SpansOK`, the obligation of C04) —
+      site "text mode: slice not on a char boundary".
+    The remaining sites are unreachable whatever the events: reference targets and back-links are in
+    range and are definitions (collector invariant `Inv` plus the lock-step of `locations` and the
+    tables), `time_override_check` finds the key it just inserted, a one-character key is not `[…]`. -/
+theorem C03_analysis_no_panic {α : Type} [Arith α] (env : Env) (input : Str) (evs : List (Ev α))
+    (hev : ∀ ev ∈ evs, EvOK' ev) (hw : WellBracketed evs) (hsp : SpansOK input evs) :
+    (parseEvents env input evs).panic = none := parseEvents_no_panic env input evs hev hw hsp
+
+/-! non-vacuity of the three hypotheses: a step with a component and an intermediate reference, then a
+    mode switch between blocks, then a text block -/
+example : let evs : List (Ev Rat) := [.start .step, .text (Text.empty 0),
+      .ingredient ⟨⟨⟨⟨Modifiers.REF⟩, ⟨0, 0⟩⟩, some ⟨⟨false, false, 1⟩, ⟨0, 0⟩⟩, Text.empty 0, none, none, none⟩, ⟨0, 0⟩⟩,
+      .timer ⟨⟨some (Text.empty 0), none⟩, ⟨0, 0⟩⟩, .stop .step,
+      .metadata (Text.empty 0) (Text.empty 0), .start .text, .text (Text.empty 0), .stop .text]
+    (∀ ev ∈ evs, EvOK' ev) ∧ WellBracketed evs ∧ SpansOK [] evs := by
+  intro evs
+  refine ⟨?_, ?_, ?_⟩
+  · intro ev hmem
+    simp only [evs, List.mem_cons, List.mem_nil_iff, or_false] at hmem
+    rcases hmem with rfl | rfl | rfl | rfl | rfl | rfl | rfl | rfl | rfl <;>
+      simp [EvOK', Modifiers.contains]
+  · exact ⟨_, rfl, _, rfl, _, rfl, _, rfl, _, rfl, _, rfl, _, rfl, _, rfl, _, rfl, trivial⟩
+  · intro ev hmem sp hsp
+    simp only [evs, List.mem_cons, List.mem_nil_iff, or_false] at hmem
+    rcases hmem with rfl | rfl | rfl | rfl | rfl | rfl | rfl | rfl | rfl <;>
+      simp only [evSpan, reduceCtorEq, Option.some.injEq] at hsp <;> subst hsp <;>
+      exact ⟨[], [], [], rfl, rfl, rfl⟩
 
 /-! non-vacuity: the tokens of `@a{1}` satisfy the hypotheses of `C03_block_no_panic` -/
 example : let b : List Tok := [⟨.at, ['@'], 0⟩, ⟨.word, ['a'], 1⟩, ⟨.openBrace, ['{'], 2⟩, ⟨.int, ['1'], 3⟩,
